@@ -454,7 +454,13 @@ func writeEvidence(spec *PropSpec, tier string, seed uint64, out *merged, nviol 
 		"wall_s":      wall,
 		"violations":  nviol,
 	}
-	os.MkdirAll(verifDir+"/evidence", 0755)
+	// runs against another tree (VERIF_REPO, used to try seeded changes) must not
+	// overwrite the evidence of the registered checks
+	dir := verifDir + "/evidence"
+	if repoTag() != "" {
+		dir = verifDir + "/build/evidence" + repoTag()
+	}
+	os.MkdirAll(dir, 0755)
 	b, _ := json.MarshalIndent(ev, "", " ")
-	os.WriteFile(verifDir+"/evidence/"+spec.ID+".json", b, 0644)
+	os.WriteFile(dir+"/"+spec.ID+".json", b, 0644)
 }
